@@ -2,6 +2,7 @@
 from rules import shell as S
 from rules import limits as LM
 from rules import shape as SH
+from rules import locking as L
 
 
 def run(ctx):
@@ -10,6 +11,7 @@ def run(ctx):
     S.erv2_request_shell(ctx)
     LM.flw1_limit_arithmetic(ctx)
     SH.flw8_shape(ctx)
+    L.lck10_no_reentrant_acquisition(ctx, scope_prefixes=['engine::execution::query_task::', 'scheduler::shared_sender::', 'locustdb::'])
     return ctx.finish(
         'Static analysis of compiler MIR + syntax tree: the text -> AST -> Query -> task shell has '
         'no explicit panic source (unwrap/expect/panic!/assert/index) except tabled, reasoned '
